@@ -1,13 +1,79 @@
-(* C13: documented configs load, loaded configs are closed, loaders never panic.  Property theorems only. *)
+(* C13: documented configs load, loaded configs are closed, loaders never panic.  Property theorems only.
+   Model (coq/model/ConfLoad.v): the decoded records of host_rule / vip_rule / route_rule / cluster_conf / gslb /
+   cluster_table files, the loaders' Check functions and ServerDataConf.check as boolean functions
+   (after /repo commits 71ef585 and 08d932b). *)
 From Coq Require Import List ZArith Bool.
-From Bfe Require Import lib.Val lib.Bytes model.ConfLoad model.ConfLoadWire proofs.ConfLoadProofs run.RunC13.
+From Bfe Require Import lib.Val lib.Bytes model.ConfLoad model.ConfLoadWire proofs.ConfLoadProofs
+  proofs.ConfLoadRunProofs run.RunC13.
 Import ListNotations.
 Open Scope Z_scope.
 
-(* Every file set accepted by (the model of) LoadServerDataConf is closed: each product named by a basic or advanced
-   route table and the default product is a key of HostTags; each host-tag of Hosts is listed under some product; each
-   cluster named by an advanced rule is a key of cluster_conf; each cluster named by a basic rule is a key of
-   cluster_conf or is the documented keyword ADVANCED_MODE. *)
+(* Every file set accepted by LoadServerDataConf is closed: each product named by a basic or advanced route table and
+   the default product is a key of HostTags; each host-tag of Hosts is listed under some product; each cluster named by
+   an advanced rule is a key of cluster_conf; each cluster named by a basic rule is a key of cluster_conf or is the
+   documented keyword ADVANCED_MODE. *)
 Theorem C13_accepted_is_closed : forall fs, accepted fs = true -> closed fs = true.
 Proof. exact accepted_is_closed. Qed.
 Print Assumptions C13_accepted_is_closed.
+
+(* The property's "only references products that exist" also covers vip_rule.data.  BFE does not cross-check the products
+   named there: the statement with closed_full (closed + every vip product is a key of HostTags) is false of the faithful
+   model -- the witness is accepted and a request arriving on that vip gets the undefined product "ghost" and
+   ErrNoProductRule -- and holds under the guard that excludes exactly that class (kf_C13 = 1). *)
+Theorem C13_accepted_is_closed_refuted :
+  exists fs, accepted fs = true /\ closed_full fs = false
+    /\ match load fs with
+       | Some t => oc_product (lookup t w_probe_vip) = b_ghost /\ oc_err (lookup t w_probe_vip) = 2
+       | None => False
+       end.
+Proof. exists w_vip_ghost. exact refuted_vip_ghost. Qed.
+Print Assumptions C13_accepted_is_closed_refuted.
+Theorem C13_accepted_is_closed_partial : forall fs,
+  vip_products_defined fs = true -> accepted fs = true -> closed_full fs = true.
+Proof. exact accepted_is_closed_full. Qed.
+Print Assumptions C13_accepted_is_closed_partial.
+
+(* Every file set that follows the documented format is accepted: all documented items present with documented values,
+   host names pairwise distinct as host names, each host-tag under one product, references defined -- including basic
+   rules whose cluster is ADVANCED_MODE (rejected before /repo commit 71ef585, see known_findings/C13.txt). *)
+Theorem C13_documented_accepted : forall fs, documented fs = true -> accepted fs = true.
+Proof. exact documented_is_accepted. Qed.
+Print Assumptions C13_documented_accepted.
+
+(* The same for the two stand-alone loaders: a documented gslb.data / cluster_table.data is accepted, and an accepted one
+   is usable (every cluster has a sub-cluster of positive weight / every sub-cluster has only complete backends, one of
+   them with positive weight -- a JSON null in a backend list is rejected, it crashed before /repo commit 08d932b). *)
+Theorem C13_gslb : forall f, (doc_gslb f = true -> gslb_conf_load f = true) /\ (gslb_conf_load f = true -> usable_gslb f = true).
+Proof. intro f. split; [apply gslb_doc_load | apply gslb_load_usable]. Qed.
+Print Assumptions C13_gslb.
+Theorem C13_cluster_table : forall f, (doc_ctable f = true -> ctable_load f = true) /\ (ctable_load f = true -> usable_ctable f = true).
+Proof. intro f. split; [apply ctable_doc_load | apply ctable_load_usable]. Qed.
+Print Assumptions C13_cluster_table.
+
+(* Totality: for every input the model produces accept/reject answers, never the crash marker: the decision logic of the
+   loaders has no partial operation (every optional field is tested before use). *)
+Theorem C13_total : forall st h v r c g t,
+  no_panic (run_C13 (VL [VZ 1; VZ st; h; v; r; c])) = true /\ no_panic (run_C13 (VL [VZ 2; VZ st; g])) = true
+  /\ no_panic (run_C13 (VL [VZ 3; VZ st; t])) = true.
+Proof. intros. split; [apply model_total_sdc | split; [apply model_total_gslb | apply model_total_ctable]]. Qed.
+Print Assumptions C13_total.
+
+(* The model satisfies the executable property prop_C13 (the predicate the harness evaluates on the implementation's
+   observations) on every decodable input of the three modelled operations outside the finding class (kf_C13 = 0). *)
+Theorem C13_prop_of_model : forall st h v r c fs, d_files h v r c = Some fs ->
+  kf_C13 (VL [VZ 1; VZ st; h; v; r; c]) = 0 ->
+  prop_C13 (VL [VZ 1; VZ st; h; v; r; c]) (run_C13 (VL [VZ 1; VZ st; h; v; r; c])) = true.
+Proof. exact prop_model_sdc. Qed.
+Print Assumptions C13_prop_of_model.
+Theorem C13_prop_of_model_gslb : forall st g f, d_gslb g = Some f ->
+  prop_C13 (VL [VZ 2; VZ st; g]) (run_C13 (VL [VZ 2; VZ st; g])) = true.
+Proof. exact prop_model_gslb. Qed.
+Print Assumptions C13_prop_of_model_gslb.
+Theorem C13_prop_of_model_cluster_table : forall st t f, d_ctable t = Some f ->
+  prop_C13 (VL [VZ 3; VZ st; t]) (run_C13 (VL [VZ 3; VZ st; t])) = true.
+Proof. exact prop_model_ctable. Qed.
+Print Assumptions C13_prop_of_model_cluster_table.
+
+(* Non-vacuity: a documented two-product file set with a basic rule that targets ADVANCED_MODE. *)
+Example C13_documented_inhabited : documented w_doc_adv = true /\ accepted w_doc_adv = true /\ closed_full w_doc_adv = true.
+Proof. exact doc_inhabited. Qed.
